@@ -31,6 +31,11 @@ std::string Plan::text() const
     if (!expect_class.empty()) {
         o << "expect " << expect_hash << " " << expect_class << "\n";
     }
+    if (!story.empty()) {
+        std::istringstream in(story);
+        std::string l;
+        while (std::getline(in, l)) o << "# " << l << "\n";
+    }
     for (const Step &s : steps) {
         o << "S " << s.op << " " << s.client;
         for (int i = 0; i < 6; i++) o << " " << s.a[i];
